@@ -12,6 +12,7 @@ import itertools
 import re
 
 from .. import boot, run, diff, progcheck
+from ..machine import UnknownSlot
 from ..cref import operands_closure
 from ..cref.ast import classify, ALIAS_64
 from ..il import reader
@@ -20,7 +21,7 @@ ALIASES = ["SA0", "LC0", "SA1", "LC1", "P3_0", "M0", "M1", "USR", "UGP", "GP", "
            "UPCYCLEHI", "UPCYCLE", "FRAMELIMIT", "FRAMEKEY", "PKTCOUNTLO", "PKTCOUNTHI", "PKTCOUNT", "UTIMERLO",
            "UTIMERHI", "UTIMER", "SP", "FP", "LR"]
 EXPLICIT = ["R0", "R1", "R2", "R3", "R31", "R30", "R13", "R1:0", "R3:2", "R31:30", "P0", "P1", "P2", "P3", "C0", "C1",
-            "C3", "C1:0", "C3:2", "M0", "M1"]
+            "C3", "C1:0", "C3:2", "M0", "M1", "R11", "R22", "R10", "R23", "C11", "C13", "R11:10", "R23:22"]
 
 
 def obs_for(o):
@@ -186,7 +187,11 @@ def table_worker(cells, nstates, seed, open_classes):
         first = {}
         for stt in states:
             p.ev()
-            r, _ = progcheck.judge_state(ast, body, stt, resolver, subs)
+            try:
+                r, _ = progcheck.judge_state(ast, body, stt, resolver, subs)
+            except UnknownSlot as e:
+                # the emitted text names a register class / number the text's operands do not have
+                r = ("il names a resource the architecture does not have", str(e))
             if r is None:
                 top = any((v["old"] >> (v["w"] - 1)) & 1 or v["old"] != v["new"] for v in stt["regs"].values())
                 if top:
